@@ -474,10 +474,12 @@ func genExecCaseOpt(t *rapid.T, rec *ev.Recorder, opType ast.Operation, saturate
 	w := m.Build()
 	sopt := world.DefaultStoreOptions()
 	sopt.Saturated = saturated
+	sopt.HostileIDs = rapid.IntRange(0, 3).Draw(t, "hostileids") == 0 // ids with the separators of the executor's insertion points (# and :), spaces, dots, slashes
 	if storeOverride != nil {
 		storeOverride(&sopt)
 	}
 	w.Store = world.GenerateStore(t, m, sopt)
+	w.Labels = world.SortedKeys(m.Labels) // the data generator adds labels too (hostile ids)
 	union, err := w.UnionSchema()
 	if err != nil {
 		t.Fatalf("generator bug: %v", err)
